@@ -194,6 +194,24 @@ def monitor_attribution(chk, cases):
     return nh
 
 
+def stalled_hits(cases):
+    """Monitor of the "stalled clients" family on records of `net stalled` / `net loop` (shared with checks/c10.py).
+    Returns a list of (replay file name, replay content, one-line description)."""
+    res = []
+    for i, c in enumerate(cases):
+        if c.get("kind") == "stalledclients":
+            if c["violations"]:
+                bad = [s["state"] for s in c["states"] if not s["fresh_ok"] or not s["old_ok"]]
+                res.append(("stalled_clients_%d.json" % i, c, "a client that stalls (%s) and keeps its socket open wedges the node: %s" %
+                            (", ".join(bad) or "set-up", c["violations"][0])))
+            elif len(c["states"]) < 7:
+                res.append(("stalled_clients_%d.json" % i, c, "stalled clients: only %d of 7 states were exercised" % len(c["states"])))
+        elif c.get("kind") == "proc" and c.get("scenario", "").startswith("stalled") and (c["panic"] or c["timed_out"] or c["exit"] != 0):
+            res.append(("stalled_clients_proc_%d.json" % i, c, "stalled clients: the node process %s" %
+                        ("panicked: " + c["tail"][:200] if c["panic"] else "did not finish")))
+    return res
+
+
 def monitor_framing(chk, cases):
     """C17: frames exactly once, unmodified, in order; oversize refused; no panic; the remaining peers keep talking."""
     nh = 0
@@ -206,6 +224,8 @@ def monitor_framing(chk, cases):
         else:
             chk.cov["monitor_hits"] += 1
 
+    for name, content, what in stalled_hits(cases):
+        hit(name, content, what)
     for i, c in enumerate(cases):
         k = c["kind"]
         if k == "mon" and not c["ok"]:
@@ -261,7 +281,7 @@ def nontrivial(c):
         return c["or"].get("um") is not None
     if k == "dec":
         return len(c["frames"]) > 0 or c["origin"] in ("oversize", "topicmix")
-    if k in ("enc", "enchdr", "decbig", "queue", "conc", "faulty", "burst", "firstsend"):
+    if k in ("enc", "enchdr", "decbig", "queue", "conc", "faulty", "burst", "firstsend", "stalledclients"):
         return True
     return False
 
@@ -343,7 +363,15 @@ def run(pid, tier, seed):
                                                 fresh_destinations=sum(c["fresh_destinations"] for c in fs),
                                                 callers_released_together=fs[0]["senders"], frames=sum(c["received"] for c in fs),
                                                 violations=sum(len(c["violations"]) for c in fs))
+    sc = [c for c in cases if c["kind"] == "stalledclients"]
+    if sc:
+        chk.cov["stalled_clients"] = dict(states=[s["state"] for s in sc[0]["states"]], bound_ms=sc[0]["bound_ms"],
+                                          fresh_peer_ms=[s["fresh_ms"] for s in sc[0]["states"]],
+                                          connected_peer_ms=[s["old_ms"] for s in sc[0]["states"]],
+                                          wedged=sc[0]["wedged"], scenario_ms=sc[0]["ms"])
     elif pid == "C17":
+        chk.violation("stalled_missing.txt", "the stalled-clients scenario produced no result record", no_input=True)
+    if not fs and pid == "C17":
         chk.violation("firstsend_missing.txt", "the concurrent-first-send scenario produced no result record", no_input=True)
     samples = []
     seen = set()
@@ -367,7 +395,8 @@ def run(pid, tier, seed):
                            "(header bytes + lengths to the model, payload by SHA-256); oversize headers; wrong topic presence; noise of "
                            "every length 0..40; queue operation sequences on real loopback nodes; concurrent senders; bursts of one caller to one healthy "
                            "peer exceeding the queue capacity (small and 64 KiB payloads, strict order + exactly once); concurrent first send (time-boxed rounds, fresh destination "
-                           "objects per round, 8 callers released by a spinning barrier, per-caller order + exactly once + integrity); each peer in turn "
+                           "objects per round, 8 callers released by a spinning barrier, per-caller order + exactly once + integrity); stalled clients (seven stall states from bare TCP connect to a partial "
+                           "frame body, sockets kept open, after each a fresh honest peer must deliver within the bound); each peer in turn "
                            "down / stalled / garbling, every scenario in its own process. Non-trivial = at least one frame handed on, "
                            "or a refusal of an oversize / mis-shaped frame; distinct by content. evaluations also counts loopback messages.")
     return chk.finish(extra_assumptions=ASSUME[pid])
@@ -377,7 +406,7 @@ COMMON = [
     "the models (coq/theories/Net/Frame.v, Handshake.v, Queue.v) are hand-written; they are tied to net/net.go by the differential "
     "run of this check through net/verif_hooks.go and the public API, not by translation",
     "tools/gen_netconsts.py (regex translator) extracts maxBuffLen, the MsgType constants, the shouldHaveTopic table and the syntactic "
-    "flags 'onTimeout contains a panic call' and 'the writer goroutine is started only through a sync.Once in startOnce' from "
+    "flags 'onTimeout contains a panic call', 'the accept loop only hands the accepted connection to go handleConn' and 'the writer goroutine is started only through a sync.Once in startOnce' from "
     "net/net.go on every run",
     "TLS 1.3 (crypto/tls), encoding/asn1, encoding/pem, crypto/x509, crypto/ecdsa, SHA-256, sockets and the Go scheduler are not modelled",
     "the case catalogue, mutation positions, payloads and traffic are derived from VERIF_SEED; certificates, TLS sessions and ECDSA "
